@@ -6,7 +6,7 @@ VERIF = os.path.dirname(os.path.dirname(os.path.abspath(__file__)))
 props = [json.loads(l) for l in open(os.path.join(VERIF, "properties.jsonl"))]
 
 T = {
- "C01": ("exploration", "boundary history monitor: exact box test on every recorded objfun argument and soln.x",
+ "C01": ("exploration", "boundary history monitor: exact box test on every recorded objfun argument and soln.x; termination enumeration (every budget, every new minimum) over active-bound references; calling-form variations",
          "Held on the executions explored: every recorded evaluation point and soln.x of ~1,400 (quick) / 30,000 (thorough) bounded runs compared exactly with the bounds, half of them directed so that the minimiser lies outside the box while one option family (restarts with growing npt, growing, momentum/regression steps, random init, averaging, regulariser, scaling) generates points next to the bounds; domain-restricted residuals (sqrt) act as an in-situ trap. Sampling, not proof.",
          "Trusts the recording wrapper (copies x before the call) and IEEE comparisons; sampled configurations only.", "4 C01"),
  "C02": ("exploration", "boundary history + log tap: exact counting / numbering in one linear pass; budget-index enumeration",
@@ -24,13 +24,13 @@ T = {
  "C06": ("exploration", "self-certifying reference solver (prox-gradient fixed point / KKT) + argument pass-through recorder + stored-objective hook",
          "Gap to a certified reference optimum and success flag on L1/L2 regularised instances incl. boxes; identity of argsh/argsprox sentinels at every call; per-iteration check that every stored objective includes h at the evaluated point. Two known findings (regulariser+scaling; optimal but warning flag) are keyed by mechanism.",
          "Reference accepted only with certificate; findings listed in KNOWN_FINDINGS.txt.", "4 C06"),
- "C07": ("fault_enumeration", "enumerated invalid inputs and parameter table (complete over the live key list) + sampled valid calls under exception/livelock monitors",
+ "C07": ("fault_enumeration", "enumerated invalid inputs and parameter table (complete over the live key list) + sampled valid calls and calls borrowed from the generators of the other solver-level checks, under exception/livelock monitors",
          "Complete enumeration of the input-validation classes, of every live user_params key x value class {default, in-range, boundary, out-of-range, wrong type} against an independent table written from docs/advanced.rst, and of the EXIT_* names in the user guide; plus sampled valid calls watched for exceptions and livelock.",
          "Expectation table written from the documentation; boundary values demand only 'no exception, no livelock, documented flag' on a fixed problem set.", "4 C07"),
  "C08": ("fault_enumeration", "fault injection at every call index of reference runs (NaN, +inf, -inf, 1e200, raise; single and persistent)",
          "Every evaluation index of each reference run receives each fault kind in turn; the faulted history is checked for exceptions, bounds, budget, finite evaluated x, and that a bad value never displaces a finite best point; coverage by phase x kind.",
          "Faults are injected at the objfun boundary by the recorder; D22 (no finite point at all) is a keyed finding.", "4 C08"),
- "C09": ("exploration", "history joined with logged dykstra calls (bit-identity of evaluated points with projection outputs)",
+ "C09": ("exploration", "history joined with logged dykstra calls (bit-identity of evaluated points with projection outputs), distances judged with the harness's own projectors; in-place user projectors",
          "Every evaluated point of convex-constrained runs is matched bit-for-bit with the output of a logged projection call and checked against sqrt(p*tol) when that call stopped by its rule, exactly against the bounds always.",
          "Harness projectors are exact; tolerance is the one each call actually received.", "4 C09"),
  "C10": ("exploration", "result versus captured controller state and restart counters; exit-site capture; exit/budget-index and failpoint enumerations",
@@ -48,7 +48,7 @@ T = {
  "C14": ("exploration", "boundary history with maxfun = npt (placement sub-space enumerated completely for n <= 2/3) + contracts on the direction generators",
          "All placements of x0 relative to each bound (7^n patterns) x npt x gap for small n are enumerated and the first npt evaluations checked for feasibility, distances, rank and conditioning; the generators are checked on all active-set patterns for n <= 4.",
          "The 2*delta 'extra directions for active constraints' of the orthogonal generator are a keyed finding.", "4 C14"),
- "C15": ("exploration", "contract on the real dykstra with call-counting projector wrappers + independent certified reference projection",
+ "C15": ("exploration", "contract on the real dykstra with call-counting projector wrappers (pure, in-place, shared-buffer) + independent certified reference projection; distances judged with the harness's own projectors",
          "Stopping rule, feasibility bound, 1e-3 optimality against a reference that is certified by the variational inequality, exact last-box membership, sweep cap - on 20,000 synthetic set geometries and in situ.",
          "Reference accepted only when certified (and never when an observed feasible point is closer).", "4 C15"),
  "C16": ("exploration", "identities checked after every fit on random Model operation histories (directly driven)",
@@ -60,10 +60,10 @@ T = {
  "C18": ("exploration", "time-series invariants over soln.diagnostic_info cross-checked with the live controller at every iteration",
          "All radius / counter / column invariants checked on every row of the diagnostic table of runs over radii, budgets, noise, regression, growing and restart settings, and against the controller's live rho/delta.",
          "delta <= 1e10 is not claimed for regularised runs (uncapped division by tau).", "4 C18"),
- "C19": ("exploration", "differential replay under perturbed global RNG states; read-only / spy arguments",
+ "C19": ("exploration", "differential replay under perturbed global RNG states; read-only / spy arguments; formed-call comparison (same values in other calling forms must give bit-identical sequences)",
          "Each configuration named by the property is run three times under different numpy global generator states and must produce bit-identical evaluation sequences and results; x0, bounds and user_params are compared with pristine copies and passed read-only.",
          "Options documented to use random directions are excluded (used as positive control).", "4 C19"),
- "C20": ("exploration", "round-trip oracle over harvested and synthetic results (strict JSON)",
+ "C20": ("exploration", "round-trip oracle over harvested and synthetic results (strict JSON, strict dtype equality)",
          "to_dict -> strict json -> from_dict -> field-by-field equality and identical str() on results harvested across flags, sizes beyond the printing thresholds, diagnostics on/off, NaN entries, plus synthetic results.",
          "Row labels of the reloaded table are strings (JSON keys) and treated as representation; +-inf cells and save_xk/save_rk are keyed findings.", "4 C20"),
 }
